@@ -1,6 +1,6 @@
 (* QuantBase.v — Encoder.quantize as written in the source (float64: floor(float64(c)*64 + 0.5), then float32(.)/64)
    computes the model's quantised value floor(c*64 + 1/2)/64, for coordinates that are zero or at least 2^-35 in magnitude
-   (for smaller non-zero coordinates the float64 sum is not exact; both sides give 0 there, which is not proved here). *)
+   (for smaller non-zero coordinates the float64 sum is not exact; both sides give 0 there: QuantTiny.v). *)
 From Coq Require Import ZArith Bool List Lia ZifyBool ZifyNat.
 From IVG Require Import SF NumCodec NumBase SFProofs SFRound CvtExact.
 Import ListNotations.
